@@ -98,6 +98,7 @@ func c10Patient() *ppb.Patient {
 		{Given: []*dtpb.String{fstr("Bea"), fstr("Dee")}},                                 // no family
 	}
 	p.Telecom = []*dtpb.ContactPoint{{Value: fstr("555-1")}, {Value: fstr("555-2")}, {Value: fstr("555-1")}}
+	p.Communication = append(p.Communication, &ppb.Patient_Communication{Language: &dtpb.CodeableConcept{Text: fstr("de")}}, &ppb.Patient_Communication{Preferred: &dtpb.Boolean{Value: true}, Language: &dtpb.CodeableConcept{Text: fstr("es")}})
 	p.Address = []*dtpb.Address{{Line: []*dtpb.String{fstr("1 Main St"), fstr("Apt 2")}, City: fstr("X")}}
 	return p
 }
@@ -124,7 +125,19 @@ func c10Collections(p *ppb.Patient) []c10Coll {
 		telecom = append(telecom, t)
 	}
 	shared := &dtpb.HumanName{Family: fstr("Zed")}
+	var comms []any
+	for _, c := range p.Communication {
+		comms = append(comms, c)
+	}
 	return []c10Coll{
+		{"Patient.communication", comms, false},
+		{"%fbools", []any{&dtpb.Boolean{Value: true}, &dtpb.Boolean{Value: false}, system.Boolean(true), &dtpb.Boolean{Value: true}, system.Boolean(false)}, true},
+		{"%ftrue", []any{&dtpb.Boolean{Value: true}, &dtpb.Boolean{Value: true}}, true},
+		{"%ffalse", []any{&dtpb.Boolean{Value: false}}, true},
+		{"%fmix", []any{&dtpb.Boolean{Value: true}, &dtpb.Boolean{Value: false}, &dtpb.Boolean{Value: true}}, true},
+		{"Patient.communication.take(2)", comms[:2], false},
+		{"Patient.communication.skip(1).take(1)", comms[1:2], false},
+		{"Patient.communication.first()", comms[:1], false},
 		{"Patient.name", names, false},
 		{"Patient.name.given", given, false},
 		{"Patient.name.family", family, false},
@@ -279,6 +292,47 @@ func runC10(cfg config) {
 		}, func(items []any) bool {
 			for _, it := range items {
 				if _, ok := it.(*dtpb.HumanName); !ok {
+					return false
+				}
+			}
+			return len(items) > 0
+		}},
+		{"preferred", func(it any) string { // a criterion that is a FHIR boolean ELEMENT, not a System Boolean
+			c := it.(*ppb.Patient_Communication)
+			switch {
+			case c.Preferred == nil:
+				return "KE"
+			case c.Preferred.Value:
+				return "KT"
+			}
+			return "KF"
+		}, func(items []any) bool {
+			for _, it := range items {
+				if _, ok := it.(*ppb.Patient_Communication); !ok {
+					return false
+				}
+			}
+			return len(items) > 0
+		}},
+		{"$this", func(it any) string { // the item itself as criterion: FHIR boolean elements and System Booleans
+			switch b := it.(type) {
+			case *dtpb.Boolean:
+				if b.Value {
+					return "KT"
+				}
+				return "KF"
+			case system.Boolean:
+				if b {
+					return "KT"
+				}
+				return "KF"
+			}
+			return "KT"
+		}, func(items []any) bool {
+			for _, it := range items {
+				switch it.(type) {
+				case *dtpb.Boolean, system.Boolean:
+				default:
 					return false
 				}
 			}
